@@ -16,6 +16,10 @@ def run(ctx):
                                      {"k": "step", "val": 0, "mutate": True}, {"k": "wait"}, {"k": "step"}]},
                           {"nodes": [{"k": "child", "mutate": True, "body": [{"k": "step", "val": 1, "mutate": True}, {"k": "step", "val": 1}]},
                                      {"k": "wait"}, {"k": "cb", "between": [], "mutate": True}, {"k": "wait"}, {"k": "wait"}]},
+                          # ... or a very long one (40 KB): what the first failing run raised is what every replay raises
+                          {"nodes": [{"k": "step", "fail": -1, "max": 1, "caught": True, "errmsg": "<long>"}, {"k": "wait"},
+                                     {"k": "child", "caught": True, "body": [{"k": "step", "fail": -1, "max": 2, "errmsg": "<long>", "errtype": "ValueError"}]},
+                                     {"k": "wait"}, {"k": "step"}]},
                           # failures whose exception carries an empty / no message (a falsy field of the recorded error)
                           {"nodes": [{"k": "step", "fail": -1, "max": 1, "caught": True, "errmsg": ""}, {"k": "wait"},
                                      {"k": "step", "fail": -1, "max": 2, "caught": True, "errmsg": "<none>", "errtype": "ValueError"}, {"k": "wait"}]},
